@@ -38,12 +38,11 @@ Leaf(cls, op, rv, cv) ==
       [] op = ">"  -> ValLess(cls, cv, rv)
       [] op = "<=" -> Ordered(cls) /\ ~rv.nil /\ ~cv.nil /\ (ValLess(cls, rv, cv) \/ ValEq(cls, rv, cv))
       [] op = ">=" -> Ordered(cls) /\ ~rv.nil /\ ~cv.nil /\ (ValLess(cls, cv, rv) \/ ValEq(cls, rv, cv))
-      [] op = "in"  -> cls = "to1" /\ Len(rv.ids) = 1 /\ rv.ids[1] \in AsSet(cv.ids)
+      \* plain membership; the value of an empty to-one is the empty id, written "e" in the lists
+      [] op = "in"  -> cls = "to1" /\ (IF rv.ids = <<>> THEN "e" ELSE rv.ids[1]) \in AsSet(cv.ids)
       [] op = "has" -> cls = "toN" /\ Len(cv.ids) = 1 /\ cv.ids[1] \in AsSet(rv.ids)
       [] OTHER -> FALSE   \* an unknown operator allows nothing
 
-\* "in" on an empty to-one: the id "" is a member only if the list holds ""
-\* (the driver never lists ""), so membership is false: covered by Len = 1 above.
 
 \* is (cls, op) a combination the property speaks about?
 OpApplies(cls, op) ==
